@@ -2039,6 +2039,9 @@ func (self *LockDB) Lock(serverProtocol ServerProtocol, command *protocol.LockCo
 	}
 
 	waited := lockManager.waited
+	if lockManager.locked == 0 && !waited && lockManager.currentData != nil {
+		lockManager.currentData = nil
+	}
 	if lockManager.locked > 0 {
 		if command.Flag&protocol.LOCK_FLAG_SHOW_WHEN_LOCKED != 0 {
 			currentLock := lockManager.currentLock
